@@ -7,7 +7,8 @@ Topology Utilities
 import copy
 import re
 
-from vivarium.library.dict_utils import deep_merge, deep_merge_multi_update
+from vivarium.library.dict_utils import (
+    deep_merge, deep_merge_multi_update, deep_copy_internal)
 
 
 def get_in(d, path, default=None):
@@ -175,11 +176,14 @@ def inverse_topology(outer, update, topology, inverse=None, multi_updates=True):
                 for child, child_update in update.items():
                     inner = normalize_path(outer + path + (child,))
                     if isinstance(child_update, dict):
+                        # merge a copy of the dictionary structure so
+                        # that later merges into the inverse never reach
+                        # into the update the process returned
                         inverse = update_in(
                             inverse,
                             inner,
                             lambda current: deep_merge(
-                                current, child_update))
+                                current, deep_copy_internal(child_update)))
                     else:
                         assoc_path(inverse, inner, child_update)
 
@@ -205,6 +209,8 @@ def inverse_topology(outer, update, topology, inverse=None, multi_updates=True):
             else:
                 inner = normalize_path(outer + path)
                 if isinstance(value, dict):
+                    # as above: the update itself must stay untouched
+                    value = deep_copy_internal(value)
                     if multi_updates:
                         inverse = update_in(
                             inverse,
